@@ -53,6 +53,15 @@ Theorem C48_exact : forall reqs rt ss,
 Proof. intros reqs rt ss H1 H2. simpl. apply rewrite_exact; assumption. Qed.
 Print Assumptions C48_exact.
 
+(* The same for the end-to-end path (Compactor.WriteSeries from a real block into
+   a new block, read back from disk), where a series left without samples is not
+   written at all. *)
+Theorem C48_exact_block : forall reqs rt ss,
+  Forall series_ok ss -> reqs_ok reqs ->
+  pred_ok (CBlock reqs rt ss (filter has_chunks (rewrite (re_of rt) reqs ss)) false) = true.
+Proof. intros reqs rt ss H1 H2. simpl. apply rewrite_exact_block; assumption. Qed.
+Print Assumptions C48_exact_block.
+
 (* Readable form of the removal half: the samples of a rewritten series are the
    original ones not covered by an interval of an applying request; so every
    sample inside such an interval is removed. *)
